@@ -70,10 +70,13 @@ T_Response == /\ IsEvent("response") /\ ph = "run" /\ lock = 0
               /\ AllFetchesDone
               /\ ph' = "ended"
               /\ UNCHANGED <<vars, lock, cnt, same>>
+\* fault, then repeat: the same operation executed once more, fault-free, on the same gateway
+T_Repeat   == /\ IsEvent("repeat") /\ ph = "ended" /\ l > 1 /\ TraceLog[l - 1].ev = "response"
+              /\ UNCHANGED <<vars, ph, lock, cnt, same>>
 T_End      == IsEvent("end") /\ ph = "ended" /\ UNCHANGED <<vars, ph, lock, cnt, same>>
 
 TraceNext == T_Reset \/ T_Skipped \/ T_Prepared \/ T_Load \/ T_Req \/ T_Loaded \/ T_Merging \/ T_Merged
-             \/ T_Response \/ T_End
+             \/ T_Response \/ T_Repeat \/ T_End
 TraceSpec == TraceInit /\ [][TraceNext]_tvars
 
 \* a fetch with an errored dependency is dropped, not prepared (errored is final for a dependency once f starts)
@@ -90,6 +93,14 @@ ErrorsNonEmpty == Answered => (Failed # {} => resp.nerr >= 1)
 \* data: unaffected parts identical, affected parts null-propagated
 Isolated == (Answered /\ resp.hasdata = 1) => Deg(resp.a, resp.x)
 
+\* after a failure the gateway is as good as new: the repetition arrives, reports nothing, sends exactly the
+\* fault-free requests and returns exactly the fault-free data
+RepeatClean ==
+  (l > 2 /\ TraceLog[l - 1].ev = "repeat") =>
+     LET r == TraceLog[l - 1] IN
+       /\ r.arrived = 1 /\ r.valid = 1 /\ r.nerr = 0 /\ r.reqsame = 1
+       /\ Same(TraceLog[l - 2].a, r.x)
+
 \* The invariants are evaluated in every state of every trace.  A false invariant is reported (with the line that
 \* was consumed last) and validation continues, so that one TLC pass judges every trace of the batch.
 Check(name, P) == IF P THEN TRUE ELSE PrintT(<<"C07_VIOLATED", name, l - 1>>)
@@ -104,6 +115,7 @@ Judge ==
   /\ Check("ResponseWellFormed", ResponseWellFormed)
   /\ Check("ErrorsNonEmpty", ErrorsNonEmpty)
   /\ Check("Isolated", Isolated)
+  /\ Check("RepeatClean", RepeatClean)
 HighWater == TLCSet(1, IF l > TLCGet(1) THEN l ELSE TLCGet(1)) /\ Judge
 TraceAccepted ==
   IF TLCGet(1) = Len(TraceLog) + 1 THEN TRUE
